@@ -161,6 +161,18 @@ fn write_dir_ids(repo: &str) -> Result<u64, String> {
             ids.insert(e.file_name().to_string_lossy().to_string());
         }
     }
+    // per language of the data: the bare language and the language with an unlisted script, a
+    // left-to-right and a right-to-left script, and a region (the direction of each must not
+    // depend on the feature set beyond the documented refinement -- nor on what was asked before)
+    let langs: BTreeSet<String> = ids.iter().filter_map(|i| i.split(|c| c == '-' || c == '_').next().map(|s| s.to_string())).filter(|l| l != "und" && l.len() <= 3).collect();
+    let rich: BTreeSet<String> = ids.iter().filter(|i| i.contains('-') || i.contains('_')).filter_map(|i| i.split(|c| c == '-' || c == '_').next().map(|s| s.to_string())).collect();
+    for l in &langs {
+        if rich.contains(l) {
+            for suffix in ["", "-Qaaa", "-Grek", "-Latn", "-Arab", "-Qaaa-ZZ", "-001"] {
+                ids.insert(format!("{}{}", l, suffix));
+            }
+        }
+    }
     let _ = std::fs::create_dir_all(format!("{}/work/c20", crate::verif_dir()));
     std::fs::write(dir_ids_path(), ids.iter().cloned().collect::<Vec<_>>().join("\n")).map_err(|e| e.to_string())?;
     Ok(ids.len() as u64)
@@ -321,7 +333,9 @@ pub fn run_c20(ctx: &Ctx) -> Report {
                 if da == db {
                     continue;
                 }
-                let has_script = id.split('-').skip(1).take(1).any(|t| t.len() == 4 && t.bytes().all(|c| c.is_ascii_alphabetic()));
+                // a pair history `x>y` reports the direction of y
+                let subject = id.rsplit('>').next().unwrap_or(id.as_str());
+                let has_script = subject.split('-').skip(1).take(1).any(|t| t.len() == 4 && t.bytes().all(|c| c.is_ascii_alphabetic()));
                 // the refinement: WITHOUT likely-subtags a script-less identifier of a language
                 // that is listed right-to-left answers RTL; WITH them the likely script may turn
                 // that into LTR (C14, last clause: only for languages CLDR lists with more than
